@@ -23,7 +23,7 @@ import z3
 from mir import parse_body, split_functions, Unsupported, _matching
 from symex import Executor, State, Outcome, I, B, UNIT
 
-OBSERVING = ("pop", "split_and_push", "is_closed")
+OBSERVING = ("pop", "split_and_push", "is_closed")  # (for reporting only)
 
 
 def find_worker_closures(mir_text):
@@ -85,6 +85,10 @@ class WorkerExecutor(Executor):
         super().__init__(bodies)
         self.opaque_calls = set()
         self.pending_local = None
+        # the market is closed during this round (never re-opens: static obligation of the broker);
+        # what a closed market does to pop / split_and_push is taken from the broker's own
+        # obligations (pop hands out nothing, split_and_push clears the local queue)
+        self.closed = z3.Bool("market_closed")
 
     # -- helpers
     def _target(self, st, v, depth=0):
@@ -124,6 +128,8 @@ class WorkerExecutor(Executor):
         if v[0] in ("arc", "broker", "opt", "opaque", "uninit"):
             if v[0] == "broker":
                 st.events.append(("drop_broker",))
+            if v[0] == "opt" and st.heap.get(v[2], ("uninit",)) == ("opaque", "job"):
+                st.discarded = st.discarded + z3.If(v[1], 1, 0)
             return None
         return super().drop_value(st, v, body, t)
 
@@ -142,7 +148,7 @@ class WorkerExecutor(Executor):
                 raise Unsupported(f"JobBroker::{meth} on something that is not the closure's broker")
             if meth == "pop":
                 r = self.fresh_int("popped")
-                st.pc.append(r >= 0)
+                st.pc += [r >= 0, z3.Implies(self.closed, r == 0)]
                 st.events.append(("pop", r, self._pending_len(st)))
                 return ("deque", r)
             if meth == "split_and_push":
@@ -150,7 +156,7 @@ class WorkerExecutor(Executor):
                 if v[0] != "deque":
                     raise Unsupported("split_and_push: second argument is not a queue")
                 after = self.fresh_int("after_split")
-                st.pc += [after >= 0, after <= v[1]]
+                st.pc += [after >= 0, after <= v[1], z3.Implies(self.closed, after == 0)]
                 st.events.append(("split_and_push", v[1], after, c == st.locals.get(self.pending_local)))
                 st.heap[c] = ("deque", after)
                 return UNIT
@@ -166,6 +172,41 @@ class WorkerExecutor(Executor):
             if v[0] != "deque":
                 raise Unsupported(f"{f} on {v[0]}")
             return B(v[1] == 0) if f.endswith("is_empty") else I(v[1])
+        mq = re.search(r"VecDeque::<.*>::(pop_back|pop_front|push_back|push_front|clear|append)$", f)
+        if mq:
+            c, v = tcs[0]
+            if v[0] != "deque":
+                raise Unsupported(f"{f} on {v[0]}")
+            op = mq.group(1)
+            if op in ("pop_back", "pop_front"):
+                st.heap[c] = ("deque", z3.If(v[1] > 0, v[1] - 1, 0))
+                return ("opt", v[1] > 0, st.alloc(("opaque", "job")))
+            if op in ("push_back", "push_front"):
+                st.heap[c] = ("deque", v[1] + 1)
+                return UNIT
+            if op == "clear":
+                st.discarded = st.discarded + v[1]
+                st.heap[c] = ("deque", z3.IntVal(0))
+                return UNIT
+            if op == "append":
+                c2, v2 = tcs[1]
+                if v2[0] != "deque":
+                    raise Unsupported("append: second argument is not a queue")
+                st.heap[c] = ("deque", v[1] + v2[1])
+                st.heap[c2] = ("deque", z3.IntVal(0))
+                return UNIT
+        if re.search(r"VecDeque<.*> as Extend<.*>>::extend::<", f):
+            c, v = tcs[0]
+            x = args[1]
+            if v[0] != "deque":
+                raise Unsupported(f"{f} on {v[0]}")
+            if x[0] == "opt":
+                st.heap[c] = ("deque", v[1] + z3.If(x[1], 1, 0))
+                return UNIT
+            if x[0] == "deque":
+                st.heap[c] = ("deque", v[1] + x[1])
+                return UNIT
+            raise Unsupported(f"extend of a queue with {x[0]}")
         if re.search(r"::check_block$", f):
             qs = [(c, v) for c, v in tcs if v[0] == "deque"]
             if len(qs) != 1 or "broker" in kinds:
@@ -372,27 +413,26 @@ def obligations(name, text):
         tagp = f"path {i} [" + ",".join(e[0] for e in ev) + "]"
         if o.kind == "reach":
             n_iter += 1
-            # W1: a worker that keeps working consults the broker: a round without any observing
-            # broker call must end with an empty queue (so that the next round starts with pop);
-            # otherwise rounds that never look at the market can follow each other for ever
-            w1 = f"{tagp}: a round of a busy worker makes a broker call that observes a closed market, or ends with an empty queue so that the next round pops"
-            if observed:
-                add(w1, z3.unsat)
+            # W1: once the market is closed (timeout, another worker stopped or panicked) a busy
+            # worker's round must end with an empty queue - then the next round starts with pop,
+            # which hands out nothing on a closed market, and the worker leaves.  A round that ends
+            # with jobs in the queue although the market is closed can repeat for ever.
+            w1 = f"{tagp}: on a closed market the round of a busy worker ends with an empty queue (the next round pops an empty batch and leaves)"
+            post = wm.ex._pending_len(st)
+            if post is None:
+                raise Unsupported("`pending` is not a queue at the end of a round")
+            r, _ = _check(base, g, wm.ex.closed, post > 0)
+            if r == z3.unsat:
+                add(w1, r)
             else:
-                post = wm.ex._pending_len(st)
-                if post is None:
-                    raise Unsupported("`pending` is not a queue at the end of a round")
                 ints = [wm.T, wm.L] + [e[2] for e in blocks]
-                r, _ = _check(base, g, post > 0)
-                if r == z3.unsat:
-                    add(w1, r)
-                else:
-                    m = _small_witness(base, z3.And(g, post > 0), ints) if r == z3.sat else None
-                    wit = None
-                    if m is not None:
-                        wit = {"checker": name, "threads": m.eval(wm.T, model_completion=True).as_long(), "queue_before": m.eval(wm.L, model_completion=True).as_long(),
-                               "queue_after_block": [m.eval(e[2], model_completion=True).as_long() for e in blocks]}
-                    add(w1, z3.sat if m is not None else z3.unknown, witness=wit)
+                m = _small_witness(base, z3.And(g, wm.ex.closed, post > 0), ints) if r == z3.sat else None
+                wit = None
+                if m is not None:
+                    wit = {"checker": name, "threads": m.eval(wm.T, model_completion=True).as_long(), "queue_before": m.eval(wm.L, model_completion=True).as_long(),
+                           "queue_after_block": [m.eval(e[2], model_completion=True).as_long() for e in blocks], "queue_at_end_of_round": m.eval(post, model_completion=True).as_long(),
+                           "broker_calls_in_round": [e[0] for e in observed]}
+                add(w1, z3.sat if m is not None else z3.unknown, witness=wit)
             # W3: nothing is destroyed while the worker keeps going; a popped batch becomes the queue
             r, _ = _check(base, g, st.discarded != 0)
             add(f"{tagp}: no job is dropped while the worker keeps working", r)
